@@ -50,6 +50,7 @@ type ofile struct {
 	size  int64
 	pos   int64
 	wonly bool // opened write-only: the file position only moves by writes
+	app   bool // O_APPEND: every write lands at the end of the file
 }
 
 // FS is one simulated disk rooted at a real directory.
@@ -141,7 +142,7 @@ func (f *FS) scanUntracked() {
 			pos = o.pos
 		}
 		size := st.Size()
-		if o.wonly && pos > o.pos {
+		if o.wonly && !o.app && pos > o.pos {
 			ev := &Event{Op: "untracked", Path: o.rel, Off: o.pos, Len: pos - o.pos, Old: o.size}
 			f.emit(ev)
 		} else if size > o.size {
@@ -236,7 +237,7 @@ func OpenFile(name string, flag int, perm os.FileMode) (*os.File, error) {
 	if err != nil {
 		return nil, err
 	}
-	o := &ofile{f: file, rel: rel, wonly: flag&(os.O_WRONLY|os.O_RDWR) == os.O_WRONLY}
+	o := &ofile{f: file, rel: rel, wonly: flag&(os.O_WRONLY|os.O_RDWR) == os.O_WRONLY, app: flag&os.O_APPEND != 0}
 	f.refresh(o)
 	f.open[file] = o
 	if op != "open-w" {
@@ -442,6 +443,9 @@ func (f *FS) doWrite(file *os.File, o *ofile, b []byte, off int64, at bool) (int
 		if st, err := file.Stat(); err == nil {
 			o.size = st.Size()
 		}
+		if o.app {
+			pos = o.size
+		}
 	}
 	f.ShortWrite = -1
 	ev := &Event{Op: op, Path: o.rel, Off: pos, Data: b, Len: int64(len(b)), Old: o.size}
@@ -511,6 +515,22 @@ func FileReadFrom(file *os.File, r io.Reader) (int64, error) {
 			return total, err
 		}
 	}
+}
+
+// FileSeek keeps the tracked position in step (a seek is not a write).
+func FileSeek(file *os.File, offset int64, whence int) (int64, error) {
+	f, o := tracked(file)
+	if f == nil {
+		return file.Seek(offset, whence)
+	}
+	f.mu.Lock()
+	defer f.mu.Unlock()
+	f.scanUntracked()
+	n, err := file.Seek(offset, whence)
+	if err == nil {
+		o.pos = n
+	}
+	return n, err
 }
 
 func FileSync(file *os.File) error {
